@@ -59,6 +59,8 @@ class SramWorld(World):
         for t in range(rng.range(60, 200)):
             if prev is not None and rng.chance(p_hold):
                 op = dict(prev)
+                if rng.chance(0.3):
+                    op["sel"] = rng.bits(nsel)      # the same word again, other lanes
             else:
                 selk = rng.below(4)
                 op = {"cyc": int(rng.chance(p_cyc)), "stb": int(rng.chance(p_stb)),
